@@ -46,6 +46,8 @@ type OpenCase struct {
 	SM        SMState       `json:"sm"`
 	Settings  []OpenSetting `json:"settings"`
 	NextBB    []int         `json:"next_bb,omitempty"`
+	// labels seen on a later snapshot of the same hand (playing / settled) that differ from the opened snapshot's: player id -> labels
+	LabelsLater map[int][]string `json:"labels_changed_during_hand,omitempty"`
 }
 
 type OpenHist struct {
@@ -177,6 +179,27 @@ func runOpenHist(h *OpenHist) []OpenCase {
 	}
 	collect := func() {
 		for _, ev := range d.takeEvents() {
+			// the labels published when the hand opened stay what they are until the hand is settled
+			if ev.Kind == "updated" && ev.Abs != nil && (ev.Status == "table_game_playing" || ev.Status == "table_game_settled") {
+				for k := len(cases) - 1; k >= 0; k-- {
+					if cases[k].Kind != "open" {
+						continue
+					}
+					if cases[k].GameCount == ev.Abs.GameCount {
+						for _, p := range ev.Abs.Players {
+							for _, q := range cases[k].Players {
+								if q.ID == p.ID && strings.Join(q.Positions, ",") != strings.Join(p.Positions, ",") {
+									if cases[k].LabelsLater == nil {
+										cases[k].LabelsLater = map[int][]string{}
+									}
+									cases[k].LabelsLater[p.ID] = append([]string{}, p.Positions...)
+								}
+							}
+						}
+					}
+					break
+				}
+			}
 			if ev.Kind == "updated" && ev.Status == "table_game_settled" && ev.Abs != nil {
 				ab := ev.Abs
 				c := OpenCase{Kind: "next_bb", Hist: h.Index, GameCount: ab.GameCount, Max: h.Max, Rule: h.Rule, SeatMap: ab.SeatMap,
@@ -364,8 +387,8 @@ func (c OpenCase) Coq() string {
 	for i, s := range c.Settings {
 		st[i] = fmt.Sprintf("(%s, %s)", coqZi(int(s.Stack)), coqLabels(s.Positions))
 	}
-	return fmt.Sprintf("mkoc %d %s [%s] %s %s %s %s %s [%s]", c.Max, zList(c.SeatMap), strings.Join(ps, "; "), zList(c.GPI),
-		coqZi(c.Dealer), coqZi(c.SB), coqZi(c.BB), c.SM.Coq(), strings.Join(st, "; "))
+	return fmt.Sprintf("mkoc %d %s [%s] %s %s %s %s %s [%s] %v", c.Max, zList(c.SeatMap), strings.Join(ps, "; "), zList(c.GPI),
+		coqZi(c.Dealer), coqZi(c.SB), coqZi(c.BB), c.SM.Coq(), strings.Join(st, "; "), len(c.LabelsLater) == 0)
 }
 
 func runOpen(opt Opts) error {
